@@ -379,7 +379,7 @@ def run_model(cases: typing.List[dict], results: typing.List[dict], scratch: str
                        'trig_sup': ln[8][2] == '1', 'consistent': ln[8][3] == '1', 'fix_lookup': ln[8][4] == '1',
                        'fix_nonj2': ln[8][5] == '1', 'fix_suptpl': ln[8][6] == '1', 'trig_py': ln[8][7] == '1',
                        'path_pure': ln[8][8] == '1', 'trig_sup_refs': ln[8][9] == '1', 'fix_constref': ln[8][10] == '1',
-                       'trig_constref': ln[8][11] == '1', 'r_rerun': int(ln[8][12]), 'dirs': sp(ln[9])}
+                       'trig_constref': ln[8][11] == '1', 'stem_check': ln[8][12] == '1', 'r_rerun': int(ln[8][13]), 'dirs': sp(ln[9])}
         return ''
     with concurrent.futures.ThreadPoolExecutor(max_workers=6) as ex:
         errs = [e for e in ex.map(one, range(6)) if e]
@@ -444,6 +444,9 @@ def witness_cases() -> typing.List[dict]:
         dict(base, lang='c', mode='never', ns_types=True, tpl='copy+empty', sup=None, types=union_types(), tag='empty-templates', probes=[]),
         # a namespace file stem spelled like a type's file name: refused in every mode, nothing listed, nothing written
         dict(base, lang='c', mode='never', stem='Plain_1_0', tpl=None, sup=None, types=plain_types(), tag='ns-clash', probes=[]),
+        # a namespace file stem that is not a plain file name (`..`, `a/b`): refused in every mode like the clash above
+        dict(base, lang='py', mode='never', stem='..', tpl=None, sup=None, types=plain_types(), tag='bad-stem', probes=[]),
+        dict(base, lang='c', mode='only', stem='a/b', tpl=None, sup=None, types=plain_types(), tag='bad-stem', probes=[]),
         # Python imports its (de)serialization templates unconditionally: they influence the output also with -pod
         dict(base, lang='py', mode='never', omit=True, tpl=None, sup=None, types=plain_types(), tag='py-omit', probes=[]),
     ]
@@ -489,7 +492,7 @@ def category(path: str, work: str, root_dir: str, comp: typing.Optional[typing.S
 # ---------------------------------------------------------------------------------------------
 def main(chk: core.Check, replay: typing.Optional[str] = None) -> int:
     known_entries(chk)
-    n_random = 33 if chk.tier == 'quick' else 300
+    n_random = 32 if chk.tier == 'quick' else 300
     rng = chk.rng
     cases = [make_case(rng, i, forced=w) for i, w in enumerate(witness_cases())]
     if replay:
